@@ -260,6 +260,14 @@ func GenC04Ext(c *Ctx) {
 			}
 		}
 	}
+	// inclusion frequencies: every element of 0..n-1 is in a k-sample with probability min(k,n)/n
+	for n := 1; n <= c.Pick(6, 10); n++ {
+		for k := 1; k <= n+1; k++ {
+			for fi, form := range []string{"collect", "stream"} {
+				c.Case(k < n, fmt.Sprintf("L samplecov %s k=%d n=%d draws=%d seed=%d", form, k, n, c.Pick(4000, 12000), 7000+100*n+10*k+fi))
+			}
+		}
+	}
 	for i, n := 0, c.Pick(500, 20000); i < n; i++ {
 		s := lxRandList(c.Rng, 30, -5, 5)
 		if c.Rng.Intn(10) == 0 {
